@@ -47,7 +47,7 @@ func TestVerifSimCtrl(t *testing.T) {
 			"C19 power loss: the disk after the crash is constructed by the harness from the directory captured at the crash point (unsynced temp content -> prefix / zero tail / empty; directory operations durable only after the directory fsync)",
 		},
 		Rule: "C18: one run = one tape-generated log of 4-36 raft entries (all 15 command kinds + unknown kind + verbatim repeats; valid / stale-fence / invalid variants; empty and conf-change entries) applied " +
-			"(a) one entry at a time, (b) through the real apply scheduler under tape-chosen job splits and MaxEntries/MaxBytes, (c) the same with up to 3 restarts (clean stop, applied-marker error, save error, process kill captured at a crash point of Save, snapshot install on an empty disk) and re-delivery from a tape-chosen earlier index. " +
+			"(a) one entry at a time, (b) through the real apply scheduler under tape-chosen job splits and MaxEntries/MaxBytes, (c) the same with up to 3 restarts (clean stop, applied-marker error, save error, process kill captured at a crash point of Save, snapshot install on an empty disk - of a prefix state, of a compactLogAt-shaped one with the applied index advanced, or of one built by a manual compaction racing the scheduler between publish and applied-marker update so that the embedded state is ahead of the snapshot's metadata index) and re-delivery from a tape-chosen earlier index. " +
 			"Non-trivial = at least 3 state-changing commands after init, at least one multi-command batch in (b), and (when faults are on, 3 runs in 4) at least one restart. " +
 			"C19: one run = one (previous | none, new) pair of valid states produced by the real state machine, each handed to Save either as published (tape value 0) or as a read-modify-write caller would (checksum unset; applied index / revision / node / health report changed with the old checksum still in the struct; a foreign or garbage checksum), compared by logical content with the loaded checksum validated against that content; a compaction-style Encode (applied index advanced on a loaded state) must Decode; real Save with all 6 crash points captured, every site x {kill, power loss variants} materialised and loaded, a later Save+Load on crashed disks, then 6-15 corruptions of the saved file. " +
 			"Non-trivial = all six crash sites reached and enumerated. One run in four has no faults (plain save/load chain).",
